@@ -72,7 +72,8 @@ def elf_gen_spec(rnd, machine=None, cls64=None, be=None, page=0x1000, loader=Fal
                          size=rnd.randrange(0, 64), info=(rnd.randrange(0, 3) << 4) | typ, other=0, shndx=1))
     entry = (segs[0]["vaddr"] + rnd.randrange(0, min(segs[0]["filesz"], 0x40))) if segs else vbase
     return dict(cls64=bool(cls64), be=bool(be), machine=mnum, etype=[2, 3, 1][rnd.randrange(3)], entry=entry, segs=segs, syms=syms,
-                sections=rnd.random() < 0.85 or bool(syms), dynsym=rnd.random() < 0.3 and bool(syms), extra_sections=rnd.randrange(0, 3))
+                sections=rnd.random() < 0.85 or bool(syms), dynsym=rnd.random() < 0.3 and bool(syms), extra_sections=rnd.randrange(0, 3),
+                odd_section=[0, 0, 0, 0x6FFFFFF5, 0x70000003, 0x60000123][rnd.randrange(6)])
 
 
 def seg_content(seg):
@@ -114,6 +115,9 @@ def elf_build(spec):
             sh(name(".text"), SHT_PROGBITS, 6, segs[0]["vaddr"], segs[0]["offset"], segs[0]["filesz"], 0, 0, 16, 0)
         else:
             sh(name(".text"), SHT_PROGBITS, 6, spec["entry"], 0, 0, 0, 0, 16, 0)
+        if spec.get("odd_section"):
+            # a section of a type outside the generic ABI (processor / OS specific range): readers skip what they do not know
+            sh(name(".odd"), spec["odd_section"], 0, 0, 0, 0, 0, 0, 1, 0)
         for k in range(spec["extra_sections"]):
             if len(segs) > k + 1:
                 s = segs[k + 1]
